@@ -58,6 +58,27 @@ void dialect::doHOLA(Graph &G) {
     doHOLA(G, opts);
 }
 
+//! The working copy that doHOLA dismantles shares its Nodes and Edges with the caller's Graph.
+//! Peeling severs the tree Edges from those Nodes, and Chains replace Edges by connectors to bend nodes.
+//! Before returning, put the incidence records of the caller's Nodes back in order: each Node knows
+//! exactly those Edges of G that end at it.
+static void restoreIncidence(Graph &G) {
+    for (auto p : G.getNodeLookup()) {
+        Node_SP u = p.second;
+        EdgesById known = u->getCopyOfEdgeLookup();
+        for (auto q : known) {
+            if (!G.hasEdge(q.first)) u->removeEdge(*q.second);
+        }
+    }
+    for (auto p : G.getEdgeLookup()) {
+        Edge_SP e = p.second;
+        Node_SP s = e->getSourceEnd(),
+                t = e->getTargetEnd();
+        if (s->getEdgeLookup().count(e->id()) == 0) s->addEdge(e);
+        if (t->getEdgeLookup().count(e->id()) == 0) t->addEdge(e);
+    }
+}
+
 void dialect::doHOLA(Graph &G, const HolaOpts &holaOpts, Logger *logger) {
 
     // If there's no edges, there's nothing to do.
@@ -118,6 +139,7 @@ void dialect::doHOLA(Graph &G, const HolaOpts &holaOpts, Logger *logger) {
         tree->underlyingGraph()->setPosesInCorrespNodes(G);
         tree->underlyingGraph()->setRoutesInCorrespEdges(G);
         tree->addConstraints(G, true);
+        restoreIncidence(G);
         // Done.
         return;
     }
@@ -458,4 +480,5 @@ void dialect::doHOLA(Graph &G, const HolaOpts &holaOpts, Logger *logger) {
 
     // Remove remaining node padding.
     G.padAllNodes(-nodePaddingLayer2, -nodePaddingLayer2);
+    restoreIncidence(G);
 }
